@@ -141,4 +141,6 @@ Example C06_d_equal_update_ignored_nonvacuous :
   let c := make_cmd true 2 2 101 7 0 5 0 11 0 0 None in
   exists m r, aget (mgrs s) (c_key c) = Some m /\ (0 <? m_locked m) = true /\ get_locked_lock s m (c_lockid c) = Some r
               /\ l_ack (getl s r) = 255 /\ check_locked_equal s (getl s r) c = true.
-Proof. vm_compute. eexists _, _. repeat split. Qed.
+Proof.
+  cbv zeta. set (s := fst (step _ _)). exists (getm s 7), 1. repeat split; vm_compute; reflexivity.
+Qed.
